@@ -1,6 +1,8 @@
 mod alloc;
 mod case;
 mod p_c01;
+mod p_c02;
+mod spec;
 mod resp;
 mod respgen;
 mod rng;
@@ -8,6 +10,34 @@ mod script;
 
 #[global_allocator]
 static GLOBAL: alloc::Counting = alloc::Counting;
+
+/// Constants regenerated from /repo by tools/extract_consts.py (passed by ./check in ATTO_CONSTS).
+pub struct Consts {
+    pub max_line_len: usize,
+    pub chunk_size_line_limit: usize,
+    pub max_buffer_len: usize,
+    pub connect_body_cap: usize,
+}
+
+pub fn consts() -> Consts {
+    let raw = std::env::var("ATTO_CONSTS").unwrap_or_default();
+    let get = |key: &str, default: usize| -> usize {
+        let pat = format!("\"{}\":", key);
+        raw.find(&pat)
+            .and_then(|i| {
+                let rest = raw[i + pat.len()..].trim_start();
+                let end = rest.find(|c: char| !c.is_ascii_digit()).unwrap_or(rest.len());
+                rest[..end].parse().ok()
+            })
+            .unwrap_or(default)
+    };
+    Consts {
+        max_line_len: get("maxLineLen", 16384),
+        chunk_size_line_limit: get("chunkSizeLineLimit", 128),
+        max_buffer_len: get("maxBufferLen", 65536),
+        connect_body_cap: get("connectBodyCap", 10240),
+    }
+}
 
 fn main() {
     // never let the environment choose proxies
@@ -37,6 +67,7 @@ fn main() {
             sink.only = args.get(6).and_then(|s| s.parse().ok());
             match prop {
                 "C01" => p_c01::generate(seed, tier, &mut sink),
+                "C02" => p_c02::generate(seed, tier, &mut sink),
                 _ => {
                     eprintln!("unknown property {}", prop);
                     std::process::exit(2);
